@@ -105,7 +105,8 @@ func (uid *Uid) UnmarshalText(src []byte) error {
 		return errors.New("Uid.UnmarshalText: invalid length")
 	}
 	dec := make([]byte, base64.URLEncoding.WithPadding(base64.NoPadding).DecodedLen(uidBase64Unpadded))
-	count, err := base64.URLEncoding.WithPadding(base64.NoPadding).Decode(dec, src)
+	// Strict: reject non-canonical text (stray trailing bits) which would otherwise be an alias of a valid ID.
+	count, err := base64.URLEncoding.WithPadding(base64.NoPadding).Strict().Decode(dec, src)
 	if count < 8 {
 		if err != nil {
 			return errors.New("Uid.UnmarshalText: failed to decode " + err.Error())
@@ -313,7 +314,7 @@ func ParseP2P(p2p string) (uid1, uid2 Uid, err error) {
 		}
 		dec := make([]byte, base64.URLEncoding.WithPadding(base64.NoPadding).DecodedLen(p2pBase64Unpadded))
 		var count int
-		count, err = base64.URLEncoding.WithPadding(base64.NoPadding).Decode(dec, src)
+		count, err = base64.URLEncoding.WithPadding(base64.NoPadding).Strict().Decode(dec, src)
 		if count < 16 {
 			if err != nil {
 				err = errors.New("ParseP2P: failed to decode " + err.Error())
